@@ -162,7 +162,13 @@ class CallMixin:
         return self.call_method(base, mod, cls, m, [idx, v], {})
     raise Unsupported(f'setitem on {type(base).__name__}')
 
+  def check_guard(self, m, what):
+    if m.guard is not None and m.guard.held == 0 and not self.spec_mode:
+      self.oblige(f'{self.cur_name}/lock-discipline[{what}]', z3.BoolVal(False), 'lock-discipline',
+                  {'text': f'{what} of a map guarded by {m.guard.name} outside the lock'})
+
   def map_store(self, m, key, v, move_to_end=False):
+    self.check_guard(m, 'write')
     k = self.unwrap_key(m, key)
     was = z3.Select(m.has, k)
     m.size = z3.If(was, m.size, m.size + 1)
@@ -280,6 +286,7 @@ class CallMixin:
         return VList(list(v.d.values()))
       raise Unsupported(f'dict method {name}')
     m = v
+    self.check_guard(m, name)
     if name == 'get':
       key = self.unwrap_key(m, a[0])
       default = a[1] if len(a) > 1 else NONE
@@ -329,6 +336,26 @@ class CallMixin:
     lk.events.append('release')
 
   def lock_method(self, lk, name, a, k):
+    gk = f'{lk.name}.free'
+    if gk in self.ghost:       # a lock other threads/owners may hold: symbolic ghost state
+      free = self.ghost[gk]
+      if name == 'locked':
+        return VBool(z3.Not(free.t))
+      if name == 'acquire':
+        blocking = k.get('blocking', a[0] if a else VBool(True))
+        if self.branch(free.t):
+          self.ghost[gk] = VBool(False)
+          lk.events.append('acquire')
+          return VBool(True)
+        if self.branch(self.truth(blocking)):
+          raise PathEnd()      # blocks until released by another thread (A5: not a per-call fact)
+        return VBool(False)
+      if name == 'release':
+        if self.branch(free.t):
+          self.raise_('RuntimeError', VStr('release unlocked lock'))
+        self.ghost[gk] = VBool(True)
+        lk.events.append('release')
+        return NONE
     if name == 'acquire':
       blocking = k.get('blocking', a[0] if a else VBool(True))
       if lk.held and not lk.reentrant:
